@@ -225,7 +225,7 @@ func (p *parent) runTraced(tmp string, deadline time.Duration) (*traceResult, st
 	}
 	defer errFile.Close()
 	args := []string{"-f", "-qq", "-s", "48", "-e", "signal=none",
-		"-e", "trace=socket,setsockopt,connect,sendto,sendmsg,sendmmsg,write",
+		"-e", "trace=socket,setsockopt,getsockname,connect,sendto,sendmsg,sendmmsg,write",
 		"--seccomp-bpf", "-o", logPath,
 		self, "-child", "-sock", sockPath, "-ca", caFile, "-workers", strconv.Itoa(childWorkers)}
 	cmd := exec.Command(strace, args...)
@@ -368,7 +368,7 @@ type problem struct {
 }
 
 // judge compares everything observed for one accepted case with the expectation.
-func judge(c *Case, e Expect, res *Result, cr *caseRes, evs []destEvent, polluted map[netip.AddrPort]bool, visited bool) (probs []problem, matched int) {
+func judge(c *Case, e Expect, res *Result, cr *caseRes, evs []destEvent, own map[string]bool) (probs []problem, matched int) {
 	o := &cr.obs
 	add := func(class, form, format string, a ...any) {
 		probs = append(probs, problem{class, form, fmt.Sprintf(format, a...)})
@@ -498,12 +498,15 @@ func judge(c *Case, e Expect, res *Result, cr *caseRes, evs []destEvent, pollute
 		}
 	}
 
-	// (5) TLS server name
-	if visited || len(foreignDests(c, e, cr, evs)) > 0 || (c.Via != "socks5" && e.Reachable && polluted[e.Listen]) {
-		// this case talked to somebody else's listener, or another case's
-		// misdirected connection arrived at this case's listener (that other case is
-		// reported with a dest-* key): names seen here prove nothing about this case
-		rep.Count("cases_names_not_judged_foreign_connection_involved", 1)
+	// (5) TLS server name, (3) HTTP - judged per connection, and only on
+	// connections whose source port belongs to a socket the trace attributes to
+	// this case (the proxy's port is private to the case). Whatever else arrives
+	// at the listener (a late reconnect of the address' previous user, another
+	// case's misdirected connection) is counted and ignored.
+	if len(foreignDests(c, e, cr, evs)) > 0 {
+		// this case's own connections went somewhere else (reported above as
+		// dest-*): what it negotiated there says nothing about names
+		rep.Count("cases_names_not_judged_own_connection_misdirected", 1)
 		return finishJudge(c, e, res, probs, matched)
 	}
 	if c.AmbigPort {
@@ -511,62 +514,67 @@ func judge(c *Case, e Expect, res *Result, cr *caseRes, evs []destEvent, pollute
 		rep.Count("ambiguous_literal_cases_tls_names_not_judged", 1)
 		return finishJudge(c, e, res, probs, matched)
 	}
-	for _, h := range append(append([]string(nil), o.TLSHellos...), o.QUICHellos...) {
-		if strings.EqualFold(h, e.SNI) {
-			rep.Count("clienthello_sni_equals_expected", 1)
-		} else {
-			add("sni-altered", sniForm, "ClientHello carried SNI %q, URL host is %q (expected SNI %q)", h, c.HostText, e.SNI)
-		}
-	}
 	mism := ""
-	if nameMismatchError(res.ExchErr) {
+	if nameMismatchError(res.ExchErr) && (cr.listening || c.Via == "socks5") {
 		mism = "client: " + res.ExchErr
 	}
-	for _, he := range o.HandshakeErrs {
-		if strings.Contains(he, "bad certificate") {
-			if mism == "" {
-				mism = "server saw: " + he
+	okHandshakes := 0
+	for _, co := range o.Conns {
+		sock := "STREAM/"
+		if co.Proto == "quic" {
+			sock = "DGRAM/"
+		}
+		if co.Via != "socks5" && !own[sock+strconv.Itoa(co.RemotePort)] {
+			rep.Count("foreign_connections_ignored", 1)
+			continue
+		}
+		rep.Count("own_connections_judged", 1)
+		rep.Count("own_connections_judged_"+co.Proto+"_"+co.Via, 1)
+		if co.HelloSeen {
+			if strings.EqualFold(co.SNI, e.SNI) {
+				rep.Count("clienthello_sni_equals_expected", 1)
+			} else {
+				add("sni-altered", sniForm, "ClientHello (from this case's source port %d) carried SNI %q, URL host is %q (expected SNI %q)", co.RemotePort, co.SNI, c.HostText, e.SNI)
+			}
+		}
+		if strings.Contains(co.HandshakeErr, "bad certificate") && mism == "" {
+			mism = fmt.Sprintf("server saw on the connection from this case's source port %d: %s", co.RemotePort, co.HandshakeErr)
+		}
+		if co.HandshakeOK {
+			okHandshakes++
+		}
+		for _, h := range co.HTTP {
+			hh, hp := hostOnly(h.Host)
+			hostOK := sameHost(hh, c)
+			portOK := false
+			if hp == "" {
+				portOK = c.Port == 0 || c.Port == 443
+			} else if n, err := strconv.Atoi(hp); err == nil {
+				portOK = n == c.Port || (c.Port == 0 && n == 443)
+			}
+			if hostOK && portOK {
+				rep.Count("http_host_equals_expected", 1)
+			} else {
+				add("http-host-altered", sniForm, "HTTP Host/:authority was %q, URL host is %q port %d", h.Host, c.HostText, c.Port)
+			}
+			if h.Path == e.HTTPPath {
+				rep.Count("http_path_equals_expected", 1)
+			} else {
+				add("http-path-altered", sniForm, "HTTP path was %q, written path is %q", h.Path, c.Path)
+			}
+			if !strings.EqualFold(h.SNI, e.SNI) {
+				add("sni-altered", sniForm, "HTTP request arrived on a TLS session with SNI %q, expected %q", h.SNI, e.SNI)
 			}
 		}
 	}
 	if mism != "" {
 		add("sni-altered", sniForm, "certificate whose only SAN is the URL host %q was refused: the server name used for verification differs from the URL host (%s)", c.HostText, mism)
 	}
-	if tlsBased(c.Scheme) && o.HandshakesOK > 0 && mism == "" {
+	if tlsBased(c.Scheme) && okHandshakes > 0 && mism == "" {
 		if c.HostKind == "hostname" {
 			rep.Count("handshake_ok_dns_san_only", 1)
 		} else {
 			rep.Count("handshake_ok_ip_san_only", 1)
-		}
-	}
-
-	// (3) HTTP
-	for _, h := range o.HTTP {
-		hh, hp := hostOnly(h.Host)
-		hostOK := sameHost(hh, c)
-		portOK := false
-		if hp == "" {
-			portOK = c.Port == 0 || c.Port == 443 || c.AmbigPort
-		} else if n, err := strconv.Atoi(hp); err == nil {
-			portOK = n == c.Port || (c.Port == 0 && n == 443)
-		}
-		if c.AmbigPort && !hostOK {
-			// "[a:b::c:port]" style: the whole written text as one literal
-			hostOK = sameHost(strings.Trim(h.Host, "[]"), c)
-			portOK = hostOK
-		}
-		if hostOK && portOK {
-			rep.Count("http_host_equals_expected", 1)
-		} else {
-			add("http-host-altered", sniForm, "HTTP Host/:authority was %q, URL host is %q port %d", h.Host, c.HostText, c.Port)
-		}
-		if h.Path == e.HTTPPath {
-			rep.Count("http_path_equals_expected", 1)
-		} else {
-			add("http-path-altered", sniForm, "HTTP path was %q, written path is %q", h.Path, c.Path)
-		}
-		if !strings.EqualFold(h.SNI, e.SNI) {
-			add("sni-altered", sniForm, "HTTP request arrived on a TLS session with SNI %q, expected %q", h.SNI, e.SNI)
 		}
 	}
 
@@ -726,6 +734,7 @@ func evaluate(p *parent, tr *traceResult) {
 	rep.Count("strace_lines", int64(tr.Lines))
 	rep.Count("strace_sockets_created", int64(tr.Sockets))
 	rep.Count("strace_so_mark_labels", int64(tr.Marks))
+	rep.Count("strace_local_ports_of_case_sockets", int64(tr.LocalSeen))
 	rep.Count("strace_inet_destinations", int64(len(tr.Events)))
 	rep.Count("strace_non_inet_destinations_ignored", int64(tr.NonInet))
 	for k, v := range tr.BySyscall {
@@ -920,7 +929,7 @@ func evaluate(p *parent, tr *traceResult) {
 			rep.SetAdd("reachable_unanswered_errors", trunc(res.ExchErr, 90))
 			rep.SetAdd("reachable_unanswered_cases", fmt.Sprintf("%s dial=%q via=%s tc=%v: %s", c.Addr, c.DialAddr, c.Via, c.TC, trunc(res.ExchErr, 60)))
 		}
-		probs, matched := judge(c, e, res, cr, byCase[c.ID], polluted, visited[c.ID])
+		probs, matched := judge(c, e, res, cr, byCase[c.ID], tr.Own[c.ID+1])
 		evs := byCase[c.ID]
 		if len(evs) > 12 {
 			evs = evs[:12]
@@ -961,7 +970,7 @@ func evaluate(p *parent, tr *traceResult) {
 	if rep.ReplayFile == "" {
 		need := []string{"strace_inet_destinations", "trace_dest_attributed_by_so_mark", "socks5_connects", "bootstrap_questions",
 			"listener_udp_datagrams", "listener_tcp_accepts", "listener_tls_clienthellos", "listener_quic_clienthellos",
-			"listener_http_requests", "unhonourable_address_rejected", "handshake_ok_ip_san_only", "handshake_ok_dns_san_only", "clienthello_sni_equals_expected"}
+			"listener_http_requests", "own_connections_judged", "unhonourable_address_rejected", "handshake_ok_ip_san_only", "handshake_ok_dns_san_only", "clienthello_sni_equals_expected"}
 		sort.Strings(need)
 		for _, k := range need {
 			if rep.Get(k) == 0 {
